@@ -148,12 +148,13 @@ example : redMean.run1 2 2 [[1, 2], [], [3]] = some [(6, 3)] :=
 
 /-! ## min / max (with dask's empty-chunk rule) -/
 
-/-- fold of a non-empty list, `none` for `[]` (`imin? = optFold min`, `imax? = optFold max`) -/
-def optFold (op : Int → Int → Int) : List Int → Option Int
+/-- fold of a non-empty list, `none` for `[]` (`imin? = optFold min`, `imax? = optFold max`,
+    `argCombine lt = optFold (better lt)`) -/
+def optFold {α : Type} (op : α → α → α) : List α → Option α
   | [] => none
   | x :: xs => some (xs.foldl op x)
 
-def omerge (op : Int → Int → Int) : Option Int → Option Int → Option Int
+def omerge {α : Type} (op : α → α → α) : Option α → Option α → Option α
   | none, b => b
   | a, none => a
   | some a, some b => some (op a b)
@@ -161,8 +162,8 @@ def omerge (op : Int → Int → Int) : Option Int → Option Int → Option Int
 theorem imin?_eq : imin? = optFold min := by funext xs; cases xs <;> rfl
 theorem imax?_eq : imax? = optFold max := by funext xs; cases xs <;> rfl
 
-theorem optFold_append (op : Int → Int → Int) (assoc : ∀ a b c, op (op a b) c = op a (op b c))
-    (xs ys : List Int) : optFold op (xs ++ ys) = omerge op (optFold op xs) (optFold op ys) := by
+theorem optFold_append {α : Type} (op : α → α → α) (assoc : ∀ a b c, op (op a b) c = op a (op b c))
+    (xs ys : List α) : optFold op (xs ++ ys) = omerge op (optFold op xs) (optFold op ys) := by
   cases xs with
   | nil =>
     show optFold op ys = omerge op none (optFold op ys)
@@ -174,13 +175,13 @@ theorem optFold_append (op : Int → Int → Int) (assoc : ∀ a b c, op (op a b
       simp only [optFold, omerge, List.cons_append, List.foldl_append, List.foldl_cons]
       rw [foldl_assoc op assoc]
 
-theorem optFold_toList (op : Int → Int → Int) (xs : List Int) :
+theorem optFold_toList {α : Type} (op : α → α → α) (xs : List α) :
     optFold op (optFold op xs).toList = optFold op xs := by
   cases xs <;> simp [optFold]
 
-/-- dropping to per-group minima first does not change the minimum (empty groups contribute nothing) -/
-theorem optFold_parts (op : Int → Int → Int) (assoc : ∀ a b c, op (op a b) c = op a (op b c))
-    (ls : List (List Int)) :
+/-- dropping to per-group results first does not change the result (empty groups contribute nothing) -/
+theorem optFold_parts {α : Type} (op : α → α → α) (assoc : ∀ a b c, op (op a b) c = op a (op b c))
+    (ls : List (List α)) :
     optFold op ((ls.map fun l => (optFold op l).toList).flatten) = optFold op ls.flatten := by
   induction ls with
   | nil => rfl
@@ -188,11 +189,11 @@ theorem optFold_parts (op : Int → Int → Int) (assoc : ∀ a b c, op (op a b)
     simp only [List.map_cons, List.flatten_cons]
     rw [optFold_append op assoc, optFold_append op assoc, ih, optFold_toList]
 
-theorem hom_minmax (op : Int → Int → Int) (assoc : ∀ a b c, op (op a b) c = op a (op b c)) :
-    Hom (fun ps : List (List Int) => (optFold op ps.flatten).toList)
-        (fun ps : List (List Int) => (optFold op ps.flatten).toList) ∧
-    Hom (fun ps : List (List Int) => (optFold op ps.flatten).toList)
-        (fun ps : List (List Int) => optFold op ps.flatten) := by
+theorem hom_minmax {α : Type} (op : α → α → α) (assoc : ∀ a b c, op (op a b) c = op a (op b c)) :
+    Hom (fun ps : List (List α) => (optFold op ps.flatten).toList)
+        (fun ps : List (List α) => (optFold op ps.flatten).toList) ∧
+    Hom (fun ps : List (List α) => (optFold op ps.flatten).toList)
+        (fun ps : List (List α) => optFold op ps.flatten) := by
   constructor
   · intro gs _ _
     show (optFold op ((gs.map fun g => (optFold op g.flatten).toList).flatten)).toList = _
@@ -239,10 +240,9 @@ example : redMin.run1 2 2 [[4, 2], [], [7]] = some [some 2] :=
 example : redMin.run1 2 1 [[], []] = some [none] :=
   min_eq_numpy 2 1 (by decide) _ (by simp) (by decide)
 
-/-- arg-reductions raise on an empty block (finding `arg:zero-length-chunk-on-reduced-axis`):
-    `arg_chunk` has no neutral element -/
-theorem arg_empty_block_raises (lt : Int → Int → Bool) (bs off tot : List Nat) :
-    argChunk lt bs off tot [] = none := rfl
+/-- an empty block has no candidate (its partial result is empty and dropped by the concatenation) -/
+theorem arg_empty_block_no_candidate (lt : Int → Int → Bool) (bs off tot : List Nat) :
+    (argChunk lt bs off tot []).toList = [] := rfl
 
 /-! ## arg-reductions: first occurrence of the extremum, for every chunking (1-d / raveled order) -/
 
@@ -439,6 +439,51 @@ theorem argmax_eq_numpy (k depth : Nat) (hk : k ≠ 0) (blocks : List (List Int)
     treeReduce (argComb ltMax) (argComb ltMax) k depth (blockParts ltMax 0 blocks)
       = [(argBest ltMax blocks.flatten).getD (0, 0)] :=
   argreduce_den ltMax hom_argComb_max k depth hk blocks hne hnb hd
+
+/-! ### …and with empty blocks (the code after the `arg_chunk` empty-block fix) -/
+
+theorem argCombine_eq_optFold (lt : Int → Int → Bool) : argCombine lt = optFold (better lt) := by
+  funext ps; cases ps <;> rfl
+
+/-- per-block partial results: at most one candidate, none for an empty block -/
+def argPartsL (lt : Int → Int → Bool) : Nat → List (List Int) → List (List (Int × Nat))
+  | _, [] => []
+  | off, b :: bs => (argChunk1 lt off b).toList :: argPartsL lt (off + b.length) bs
+
+theorem argPartsL_eq (lt : Int → Int → Bool) (off : Nat) (blocks : List (List Int)) :
+    argPartsL lt off blocks = (cands off blocks).map fun c => (optFold (better lt) c).toList := by
+  induction blocks generalizing off with
+  | nil => rfl
+  | cons b bs ih => simp only [argPartsL, cands, List.map_cons, ih, argChunk1_eq, argCombine_eq_optFold]
+
+/-- **arg-reductions for every blocking, empty blocks included**: the tree returns the value and FIRST global
+    index of the extremum of the concatenated data, or raises (`none`) iff there is no data at all. -/
+theorem arg_eq_numpy_all (lt : Int → Int → Bool)
+    (assoc : ∀ a b c, better lt (better lt a b) c = better lt a (better lt b c))
+    (k depth : Nat) (hk : k ≠ 0) (blocks : List (List Int)) (hne : blocks ≠ [])
+    (hd : blocks.length ≤ k ^ depth) :
+    treeReduce (argCombL lt) (argAggL lt) k depth (argPartsL lt 0 blocks) = [argBest lt blocks.flatten] := by
+  obtain ⟨h1, h2⟩ := hom_minmax (better lt) assoc
+  have e1 : argCombL lt = fun ps => (optFold (better lt) ps.flatten).toList := by
+    funext ps; simp [argCombL, argCombine_eq_optFold]
+  have e2 : argAggL lt = fun ps => optFold (better lt) ps.flatten := by
+    funext ps; simp [argAggL, argCombine_eq_optFold]
+  have hlen : (argPartsL lt 0 blocks).length = blocks.length := by
+    rw [argPartsL_eq, List.length_map, length_cands]
+  rw [e1, e2, treeReduce_eq_fold _ _ h1 h2 k depth hk _
+    (by intro h; rw [h] at hlen; cases blocks <;> simp_all) (by rw [hlen]; exact hd)]
+  congr 1
+  rw [argPartsL_eq, optFold_parts (better lt) assoc, cands_flatten, ← argCombine_eq_optFold, argBest_eq]
+
+theorem argmin_eq_numpy_all (k depth : Nat) (hk : k ≠ 0) (blocks : List (List Int)) (hne : blocks ≠ [])
+    (hd : blocks.length ≤ k ^ depth) :
+    treeReduce (argCombL ltMin) (argAggL ltMin) k depth (argPartsL ltMin 0 blocks) = [argBest ltMin blocks.flatten] :=
+  arg_eq_numpy_all ltMin better_assoc_min k depth hk blocks hne hd
+
+theorem argmax_eq_numpy_all (k depth : Nat) (hk : k ≠ 0) (blocks : List (List Int)) (hne : blocks ≠ [])
+    (hd : blocks.length ≤ k ^ depth) :
+    treeReduce (argCombL ltMax) (argAggL ltMax) k depth (argPartsL ltMax 0 blocks) = [argBest ltMax blocks.flatten] :=
+  arg_eq_numpy_all ltMax better_assoc_max k depth hk blocks hne hd
 
 /-- `argBest` really is "first index of the minimum": ties keep the earlier index -/
 example : argBest ltMin [3, 1, 2, 1] = some (1, 1) ∧ argBest ltMax [3, 1, 3] = some (3, 0) := by decide
